@@ -7,7 +7,8 @@ from ..alg import Poly
 from ..interp import Interp, Hooks
 from ..values import *
 from .. import transfer as T
-from ..model import AnalysisError
+import ast
+from ..model import AnalysisError, src
 
 META = {
     "explanation": "Static analysis (abstract interpretation over an exact monomial/role/sign/coefficient domain) of "
@@ -124,9 +125,73 @@ def _has_op(v, op, depth=0):
             return any(_has_op(getattr(a_, "value", a_), op, depth + 1) for a_ in xs)
     return False
 
+def integer_safe_division(ctx, repo):
+    """DTYPE: the formula divides by V_i (and h_ij) whatever dtype the caller's arrays have: `/` and `/=` are true division in numpy.
+    `np.reciprocal`, `//` and a negative integer power keep an INTEGER dtype (1/V becomes 0 for every V >= 2, or raises): recognised
+    wrong unless the operand was converted to float first."""
+    fi = repo.func("molgri.molecules.transitions", "SQRA.get_rate_matrix")
+    ci = repo.cls("molgri.molecules.transitions", "SQRA")
+    from ..astutil import Canon
+    cn = Canon(Canon.single_defs(fi.node.body))
+    init = ci.find_method("__init__")
+    converted = set()
+    if init is not None:
+        for n in ast.walk(init.node):
+            if isinstance(n, ast.Assign) and len(n.targets) == 1 and isinstance(n.targets[0], ast.Attribute) and \
+                    isinstance(n.targets[0].value, ast.Name) and n.targets[0].value.id == "self":
+                t_ = src(n.value).replace(" ", "")
+                if "dtype=float" in t_ or "astype(float)" in t_ or "float64" in t_:
+                    converted.add(n.targets[0].attr)
+
+    def is_float(e):
+        t_ = src(e).replace(" ", "")
+        if "dtype=float" in t_ or "astype(float)" in t_ or "float64" in t_ or "np.float_" in t_:
+            return True
+        if any(isinstance(x, ast.Constant) and isinstance(x.value, float) for x in ast.walk(e)) and isinstance(e, ast.BinOp):
+            return True
+        if any(isinstance(x, ast.BinOp) and isinstance(x.op, ast.Div) for x in ast.walk(e)):
+            return True
+        if isinstance(e, ast.Attribute) and isinstance(e.value, ast.Name) and e.value.id == "self" and e.attr in converted:
+            return True
+        return False
+    sites, bad, unk = 0, [], []
+    for n in ast.walk(fi.node):
+        arg = None
+        form = None
+        if isinstance(n, ast.Call) and (repo.dotted_of(fi.module, n.func) or "") == "numpy.reciprocal" and n.args:
+            arg, form = n.args[0], "np.reciprocal"
+            if any(k.arg == "dtype" for k in n.keywords):
+                arg = None
+        elif isinstance(n, (ast.BinOp, ast.AugAssign)) and isinstance(n.op, ast.FloorDiv):
+            arg, form = (n.right if isinstance(n, ast.BinOp) else n.value), "//"
+        elif isinstance(n, ast.BinOp) and isinstance(n.op, ast.Pow) and isinstance(n.right, ast.UnaryOp) and isinstance(n.right.op, ast.USub) and \
+                isinstance(n.right.operand, ast.Constant) and isinstance(n.right.operand.value, int):
+            arg, form = n.left, "** -k"
+        if arg is None:
+            continue
+        e = cn.expand(arg)
+        state = [x for x in ast.walk(e) if isinstance(x, ast.Attribute) and isinstance(x.value, ast.Name) and x.value.id == "self" and
+                 x.attr in ("volumes", "distances", "surfaces", "energies")]
+        if not state:
+            continue
+        sites += 1
+        if is_float(e):
+            continue
+        bad.append((n, form, src(e)[:80]))
+    ctx.instance("COEF", max(1, sites))
+    for n, form, what in bad:
+        ctx.violate("COEF", "C01.O1.dtype", f"`{form}` keeps the dtype of its operand: for volumes (distances) handed over as an INTEGER array "
+                    "the reciprocal is computed in integer arithmetic (1/V = 0 for every V >= 2), so whole rows of the rate matrix vanish; "
+                    "`/` and `/=` promote to float", fi.where, src(n)[:120], witness=f"operand {what} is stored as the caller passed it")
+    if not bad:
+        ctx.ok("COEF", "C01.O1.dtype", "the divisions by V and h are true divisions (no dtype-preserving reciprocal / floor division / negative "
+               "integer power of a caller-supplied array)", fi.where)
+
+
 def run(ctx, repo, tier):
     for fmt in ("csr", "coo"):
         run_context(ctx, repo, tier, fmt)
+    integer_safe_division(ctx, repo)
     ctx.require_instances("KERNEL", 20, "kernel statements interpreted (two storage forms)")
     ctx.trust(*META["trusted"])
     ctx.assume(*META["assumptions"])
@@ -311,6 +376,25 @@ def run_context(ctx, repo, tier, fmt):
         ctx.ok("KERNEL", "C01.O2", "exponent = +E[row] - E[col] (same role as the volume), capped", where,
                derived=exp_arg.pretty())
         ctx.ok("COEF", "C01.O3", "coefficient 1000/(2 kB N_A T), one-sided cap at 500", where, derived=exp_arg.pretty())
+        # the exponential that is actually EVALUATED must not be larger than the factor itself: sqrt(exp(2x)) equals exp(x), but the
+        # intermediate overflows at half the energy range (and underflows to 0 at half the range on the other side) although the
+        # value of the entry is an ordinary double; the documented cap keeps exp(x) finite, not exp(2x)
+        wide = []
+        for a, k in atoms.items():
+            if a[0] == "app" and a[1] == "exp" and a[2] != spec_arg:
+                r_ = a[2] / spec_arg
+                if r_.is_const() and abs(r_.as_const()) > 1:
+                    wide.append((a, k, r_.as_const()))
+        ctx.instance("COEF")
+        if wide:
+            a, k, r_ = wide[0]
+            ctx.violate("COEF", "C01.O3.range", f"the Boltzmann factor is obtained as the power {k} of an exponential whose argument is {r_} "
+                        "times the exponent of the entry: that intermediate overflows to inf (and underflows to 0) at a fraction of the energy "
+                        "range for which the entry itself is representable, so pairs below the documented 500 kJ/mol cap give inf / nan rows "
+                        "at low temperature and the rate into a very high cell becomes exactly 0", where, "np.sqrt(np.exp(...))",
+                        witness=f"evaluated: exp({a[2].pretty()[:120]}) ** {k}")
+        else:
+            ctx.ok("COEF", "C01.O3.range", "the exponential that is evaluated is the factor of the entry itself (no wider intermediate)", where)
     else:
         # diagnose
         diagnosed = False
